@@ -3,9 +3,16 @@
 package server
 
 import (
-	"github.com/fatedier/frp/pkg/msg"
-	"github.com/fatedier/frp/zzverif"
+	"context"
 	"net"
+
+	"github.com/fatedier/frp/pkg/auth"
+	v1 "github.com/fatedier/frp/pkg/config/v1"
+	"github.com/fatedier/frp/pkg/msg"
+	plugin "github.com/fatedier/frp/pkg/plugin/server"
+	"github.com/fatedier/frp/server/controller"
+	"github.com/fatedier/frp/server/proxy"
+	"github.com/fatedier/frp/zzverif"
 )
 
 // VerifC12Relogin: a client logs in again with its run id while the previous session is
@@ -66,6 +73,19 @@ func VerifC12Relogin() {
 	}
 }
 
+var c12Made []*Control
+
+// stub for NewControl: the real constructor, its results remembered (a replaced session is no longer
+// reachable through the session table)
+func c12StubNewControl(ctx context.Context, rc *controller.ResourceController, pxyManager *proxy.Manager, pluginManager *plugin.Manager,
+	authVerifier auth.Verifier, ctlConn net.Conn, ctlConnEncrypted bool, loginMsg *msg.Login, serverCfg *v1.ServerConfig) (*Control, error) {
+	c, err := NewControl(ctx, rc, pxyManager, pluginManager, authVerifier, ctlConn, ctlConnEncrypted, loginMsg, serverCfg)
+	if err == nil {
+		c12Made = append(c12Made, c)
+	}
+	return c, err
+}
+
 // VerifC12ConcurrentRelogin: two re-logins with the same run id arrive at the same time (the old
 // connection still draining): afterwards the run id designates exactly one session and every
 // other session that ever held it has been replaced and closed, none is left running beside it.
@@ -75,12 +95,38 @@ func VerifC12ConcurrentRelogin() {
 	svr.authVerifier = &zzVerifier{loginOK: true}
 	zzNetReset()
 	zzProbeAnswer = true
+	// a login is acknowledged (LoginResp written) only when every session acknowledged earlier for
+	// this run id has been torn down completely
+	c12Made = nil
+	var acked []*Control
+	ack := func(on *zzConn) func(m msg.Message) {
+		return func(m msg.Message) {
+			if _, ok := m.(*msg.LoginResp); !ok {
+				return
+			}
+			for _, prev := range acked {
+				select {
+				case <-prev.doneCh:
+				default:
+					zzverif.Fail("C12.relogin2.acknowledged-only-after-the-replaced-session-is-torn-down")
+				}
+			}
+			for _, c := range c12Made {
+				if fc := zzUnwrap(c.conn); fc == on {
+					acked = append(acked, c)
+				}
+			}
+		}
+	}
 	conn1 := &zzConn{name: "old", closeCh: make(chan struct{})}
+	conn1.onWrite = ack(conn1)
 	err := svr.RegisterControl(conn1, &msg.Login{RunID: "r1", User: "u"}, false)
 	zzverif.Assume(err == nil)
 	zzverif.Quiesce()
 	conn2 := &zzConn{name: "new-a", closeCh: make(chan struct{})}
+	conn2.onWrite = ack(conn2)
 	conn3 := &zzConn{name: "new-b", closeCh: make(chan struct{})}
+	conn3.onWrite = ack(conn3)
 	var e3 error
 	done3 := false
 	go func() {
